@@ -18,7 +18,7 @@ PASS_THROUGH = (
 
 class Gate:
     """one condition an accept site is control dependent on."""
-    __slots__ = ('kind', 'what', 'operands', 'fn', 'block', 'line', 'callee', 'args', 'edge', 'const_ops', 'truth', 'negated')
+    __slots__ = ('kind', 'what', 'operands', 'fn', 'block', 'line', 'callee', 'args', 'edge', 'const_ops', 'truth', 'negated', 'dom')
 
     def __init__(self, kind, what, operands, fn, block, line, callee=None, args=None, edge=None, const_ops=None):
         self.kind = kind          # 'cmp' | 'call' | 'deleg' | 'match' | 'opaque'
@@ -31,6 +31,7 @@ class Gate:
         self.args = args
         self.edge = edge
         self.const_ops = const_ops or []
+        self.dom = False      # the edge the accept site depends on dominates it (every path to the accept passes this check)
         self.truth = None     # which way the condition evaluated on the edge the accept site depends on
         self.negated = False  # an odd number of `!` between the classified operation and the switch
 
@@ -284,6 +285,7 @@ class GateAnalysis:
         for (a, s) in sorted(body.control_deps_transitive(bi)):
             g = classify_switch(self.eng, fd, a)
             g.edge = (a, s)
+            g.dom = body.dominates(s, bi) and all(p == a or body.dominates(s, p) for p in body.pred[s])
             t = body.blocks[a]['term']
             zero_t = [b for v, b in t['targets'] if v == '0']
             if zero_t and len(t['targets']) == 1 and zero_t[0] != t['otherwise']:
@@ -299,6 +301,7 @@ class GateAnalysis:
         for s in g.args:
             s.edge = g.edge
             s.truth = g.truth
+            s.dom = g.dom
             out.extend(self._flatten(s))
         return out
 
@@ -320,12 +323,17 @@ class GateAnalysis:
             if kind == 'tail':
                 tgt = local_target(self.eng, extra)
                 if tgt is not None:
-                    delegs.append(Gate('deleg', tgt, [], path, bi, extra.get('line'), callee=tgt, args=extra['args']))
+                    dgt = Gate('deleg', tgt, [], path, bi, extra.get('line'), callee=tgt, args=extra['args'])
+                    dgt.dom = True
+                    delegs.append(dgt)
                 else:
-                    direct.append(Gate('call', extra.get('callee') or '?', [fd.read_op(a) for a in extra['args']],
-                                       path, bi, extra.get('line'), callee=extra.get('callee'), args=extra['args']))
+                    gt = Gate('call', extra.get('callee') or '?', [fd.read_op(a) for a in extra['args']],
+                              path, bi, extra.get('line'), callee=extra.get('callee'), args=extra['args'])
+                    gt.dom = True
+                    direct.append(gt)
             elif kind == 'boolvar':
                 g = _classify_value(self.eng, fd, extra, bi, None, 0)
+                g.dom = True      # the returned boolean itself
                 for g2 in self._flatten(g):
                     if g2.kind == 'deleg':
                         delegs.append(g2)
@@ -346,6 +354,7 @@ class GateAnalysis:
                             ops.append(oo)
                         ng = Gate(g.kind, g.what, ops, g.fn, g.block, g.line, g.callee, None, g.edge, g.const_ops)
                         ng.truth = g.truth
+                        ng.dom = g.dom and dg.dom
                         lifted.append(ng)
                     lifted_alts.append(lifted)
                 if not lifted_alts:
